@@ -126,3 +126,8 @@ package rapidcore
 //@ func (*Server).SendInitErrorResponse
 //@   modifies serverReply, s.cachedInitErrorResponse
 //@   ensures [cached-outside-invoke] true
+
+// C16: the sandbox stores the handler override and the Runtime API address into the reserved layers of the environment
+//@ func (SandboxContext).Init
+//@   ensures [api-address] has(init.EnvironmentVariables.platform, "AWS_LAMBDA_RUNTIME_API") && init.EnvironmentVariables.platform["AWS_LAMBDA_RUNTIME_API"] == s.runtimeAPIAddress
+//@   ensures [handler-override] len(s.handler) > 0 ==> has(init.EnvironmentVariables.runtime, "_HANDLER") && init.EnvironmentVariables.runtime["_HANDLER"] == s.handler
